@@ -78,6 +78,18 @@ impl DnsCache {
     }
 }
 
+/// Verification hook: fill the cache for `host` as a successful lookup would.
+#[cfg(anytls_verif)]
+pub async fn verif_preseed(host: &str, addresses: Vec<SocketAddr>) {
+    DNS_CACHE.insert(host.to_string(), addresses).await;
+}
+
+/// Verification hook: forget every cached entry.
+#[cfg(anytls_verif)]
+pub async fn verif_clear() {
+    DNS_CACHE.clear().await;
+}
+
 /// Resolve a hostname with caching and timeout.
 pub async fn resolve_host_with_cache(host: &str, port: u16) -> Result<SocketAddr> {
     if let Ok(ip) = host.parse::<IpAddr>() {
